@@ -15,6 +15,12 @@ values handed to svd_incomplete are read from that dense array, so nothing of te
 * C20.svd_incomplete.recover      result equals the tensor: ||dense(Z)-T|| <= 1e-6 ||T|| after the conditioning
                                   rejection below (FAIL with a clear message if the call raises).
 
+Parameter coverage (audit): sample_tt n as list / ndarray / tuple / int32 array, r positional and through its default (4),
+seed int / Generator / None (reproducible, global generator untouched); svd_incomplete e in {1e-13 .. 1e-8} and scaled along
+with the data (scales 1e-100 .. 1e100; e is ABSOLUTE), r int / float / binding / default, both defaults; mode sizes up to
+600 / 1030 (2000 thorough), d up to 8 (10), m up to rho + 5, Gaussian and uniform cores, ragged bond-rank profiles (rho a
+list, m >= max), 12 (37) further generator seeds.
+
 Conditioning rule ("almost all tensors"): a case is SKIPped unless every unfolding of the target has
 sigma_r / sigma_1 >= 1e-3 at its generic rank r AND every sampled sub-block that the recovery inverts (the
 m sampled columns of unfolding k restricted to the sampled rows) has sigma_r / sigma_1 >= 1e-4.
@@ -27,7 +33,9 @@ from rtc import gen
 
 BUDGET = (60, 600)
 BOUNDS = ('d in 2..4, n_k in m..m+2 (<= 7), rho in 1..3, m in rho..rho+2, cap in {rho, rho+1, 1e12}, generator seeds '
-          '0..2, Gaussian cores: ~100 configs (quick, caps and seeds rotated) / ~900 (thorough, full product); layout clause d <= 4, n <= 6, m <= 6 incl. n_k < m')
+          '0..2, Gaussian cores: ~100 configs (quick, caps and seeds rotated) / ~900 (thorough, full product); layout clause d <= 4, n <= 6, m <= 6 incl. n_k < m; '
+          'audit part: scales 1e-100..1e100 with e scaled along, e in 1e-13..1e-8, defaults, float caps, argument forms of sample_tt (4 shape forms, '
+          'Generator / None seeds, default r), mode sizes up to 1030 (2000), d up to 8 (10), m up to rho+5, uniform cores, ragged rank profiles')
 
 FUNCS = ('svd.svd_incomplete', 'sample.sample_tt')
 
@@ -284,6 +292,9 @@ def cases(tier, seed):
                 continue
             for cap in (rho, float(rho) + 0.5, 1e12, None):
                 yield 'C20.svd_incomplete.recover', dict(n=n, rho=rho, m=m, cap=cap, tseed=ts(), sseed=len(n) + rho, nform=nform, seedform=seedform)
+    for n, rho, m in (([4, 5], 2, 3), ([4, 4, 5], 2, 3), ([5, 6, 5], 3, 4)):       # defaults (e = 1e-10 absolute) on small data
+        for scale in (1e-3, 1e-5):
+            yield 'C20.svd_incomplete.recover', dict(n=n, rho=rho, m=m, cap=None, tseed=ts(), sseed=4, scale=scale)
     # overall scale with the absolute accuracy e scaled along (e = 1e-10 * scale), and other values of e at scale 1
     for n, rho, m in (([3, 4], 2, 2), ([4, 5, 4], 2, 3), ([4, 4, 4, 4], 3, 4), ([5, 5, 5], 3, 3)) + ((([6, 5], 3, 5), ([3, 3, 3, 3, 3], 2, 2)) if big else ()):
         for scale in (1e-100, 1e-12, 1e-8, 1e-3, 1e2, 1e8, 1e100):
